@@ -95,6 +95,7 @@ type SpecOpts struct {
 	Minimal   bool // no optional field
 	Full      bool // every optional field
 	Issuer    *Principal
+	NoBig     bool // no >= 1 KiB single values (keeps exhaustive byte-level enumerations bounded)
 }
 
 // RandomSpec draws a token description.
@@ -131,6 +132,23 @@ func RandomSpec(r *rand.Rand, typ string, o SpecOpts) *TokenSpec {
 	}
 	if has(40) {
 		s.Nonce = Bytes(r, 12+r.IntN(53))
+		if r.IntN(12) == 0 && !o.NoBig {
+			s.Nonce = Bytes(r, Pick(r, []int{1023, 1024, 1025, 3000}))
+		}
+	}
+	// now and then a single large value (size diversity: >= 1 KiB strings / byte strings)
+	if !o.Minimal && !o.NoBig && r.IntN(8) == 0 {
+		big := Pick(r, []int{1000, 1023, 1024, 1025, 1500, 4096, 5000})
+		v := ref.Bytes(Bytes(r, big))
+		if r.IntN(2) == 0 {
+			b := make([]byte, big)
+			for i := range b {
+				b[i] = "abcdefghijklmnopqrstuvwxyz "[r.IntN(27)]
+			}
+			v = ref.Str(string(b))
+		}
+		s.Meta.M = append(s.Meta.M, ref.KV{K: "zz-big", V: v})
+		s.Meta.M = NormMapKeys(s.Meta.M)
 	}
 	switch typ {
 	case "dlg":
@@ -181,11 +199,20 @@ func RandomSpec(r *rand.Rand, typ string, o SpecOpts) *TokenSpec {
 			}
 			s.Prf = append(s.Prf, RandomCID(r))
 		}
+		// instants the invocation options accept without restriction: far past, the epoch,
+		// the Go zero time, the limits of the 53-bit range
+		special := func() *time.Time {
+			t := Pick(r, []time.Time{time.Unix(0, 0), time.Unix(-1, 0), time.Unix(1, 0), {}, time.Unix(-ref.MaxSafe, 0), time.Unix(ref.MaxSafe, 0), time.Unix(-62135596800+1, 0), time.Unix(1<<31, 0), time.Unix(-(1 << 31), 0)})
+			return &t
+		}
 		if has(60) {
-			if r.IntN(3) == 0 {
+			switch r.IntN(6) {
+			case 0, 1:
 				t := now.Add(-time.Duration(1+r.IntN(100000)) * time.Hour).Truncate(time.Second)
 				s.Exp = &t
-			} else {
+			case 2:
+				s.Exp = special()
+			default:
 				s.Exp = future()
 			}
 		}
@@ -195,6 +222,9 @@ func RandomSpec(r *rand.Rand, typ string, o SpecOpts) *TokenSpec {
 		case has(40):
 			t := now.Add(time.Duration(r.IntN(200000)-100000) * time.Minute).Truncate(time.Second)
 			s.Iat = &t
+			if r.IntN(4) == 0 {
+				s.Iat = special()
+			}
 		}
 		if has(30) {
 			c := RandomCID(r)
